@@ -290,7 +290,9 @@ func (g *hGen) extOffer() []string {
 	return out
 }
 
-var evilValues = []string{"v", "a b", "x\r\nInjected: 1", "tab\there", "\x00nul", "bell\x07", "ü", "line1\nline2", "cr\rend", "", " lead", "trail "}
+var evilValues = []string{"v", "a b", "x\r\nInjected: 1", "tab\there", "\x00nul", "bell\x07", "ü", "line1\nline2", "cr\rend", "", " lead", "trail ",
+	// multi-byte characters whose code points end in 0x0D / 0x0A / 0x00 (a scrub that works on runes and truncates would emit CR LF)
+	"x\u010d\u010aInjected: 1", "\u010a", "a\u020db", "\u0100", "\xc4", "\xc4\x8a\xff"}
 
 func runServerScenario(seed int64, originFocus bool) *scenario {
 	r := rand.New(rand.NewSource(seed))
@@ -396,7 +398,7 @@ func runServerScenario(seed int64, originFocus bool) *scenario {
 			rhOrder = append(rhOrder, k)
 		}
 		if r.Intn(5) == 0 {
-			rh["Sec-Websocket-Protocol"] = []string{g.pick("chat", "admin", "x\r\nEvil: 1", "")}
+			rh["Sec-Websocket-Protocol"] = []string{g.pick("chat", "admin", "x\r\nEvil: 1", "", "x\u010d\u010aSet-Cookie: sid=evil", "caf\u00e9")}
 			rhOrder = append(rhOrder, "Sec-Websocket-Protocol")
 		}
 		if breakWhat == 6 || r.Intn(15) == 0 {
@@ -498,7 +500,21 @@ func originFor(g *hGen, host string, bad bool) string {
 		return scheme + g.caseVar(host) + g.pick("", "/", "/path?q=1")
 	}
 	h := host
-	switch r.Intn(12) {
+	switch r.Intn(14) {
+	case 12, 13:
+		// a look-alike that differs from the host only in the high bit of some bytes (or by a
+		// multi-byte character whose bytes alias two ASCII bytes modulo 128)
+		b := []byte(host)
+		for k := 0; k < 1+r.Intn(2) && len(b) > 0; k++ {
+			i := r.Intn(len(b))
+			if b[i] != '.' && b[i] != ':' && b[i] != '[' && b[i] != ']' && b[i] != '%' {
+				b[i] |= 0x80
+			}
+		}
+		h = string(b)
+		if h == host {
+			h = host + "\x80"
+		}
 	case 0:
 		h = "evil." + host
 	case 1:
@@ -757,6 +773,18 @@ func runUnitScenario(seed int64) *scenario {
 			if r.Intn(4) == 0 {
 				a, b = "a\xffb", "a\xfeb"
 			}
+			if r.Intn(4) == 0 {
+				// same bytes modulo 128
+				a = g.pick("x1.example.org", "abc.example.org", "p0.example.org", "e", "Host")
+				bb := []byte(a)
+				for k := 0; k < 1+r.Intn(3); k++ {
+					bb[r.Intn(len(bb))] |= 0x80
+				}
+				b = string(bb)
+				if r.Intn(2) == 0 {
+					a, b = b, a
+				}
+			}
 			guard(fmt.Sprintf("fold %s %s", hx([]byte(a)), hx([]byte(b))), func() string {
 				got := websocket.VerifEqualASCIIFold(a, b)
 				// oracle: ASCII case folding is byte-wise
@@ -850,10 +878,32 @@ func runUnitScenario(seed int64) *scenario {
 				return hx([]byte(got))
 			})
 		case 6:
-			host := g.pick("example.com", "example.com:8080", "[::1]", "[::1]:9", "a:b:c", "", "host:", "[fe80::1%25en0]:443", "x]:1")
+			host := g.pick("example.com", "example.com:8080", "[::1]", "[::1]:9", "a:b:c", "", "host:", "[fe80::1%25en0]:443", "x]:1", "[2001:db8::1]", "10.0.0.1", "10.0.0.1:81", "[fe80::1%25en0]", "EXAMPLE.org")
 			scheme := g.pick("ws", "wss", "http", "https", "")
 			guard(fmt.Sprintf("hpnp %s %s", hx([]byte(scheme)), hx([]byte(host))), func() string {
 				a, b := websocket.VerifHostPortNoPort(&url.URL{Scheme: scheme, Host: host})
+				// oracle for well-formed authorities (RFC 3986 host [":" port]): the dial address is the
+				// URL's host plus its port, or the scheme's default port, in the form net.Dial accepts
+				if bare, port, ok := splitAuthority(host); ok {
+					want := port
+					if want == "" {
+						want = "80"
+						if scheme == "wss" || scheme == "https" {
+							want = "443"
+						}
+					}
+					h, p, err := net.SplitHostPort(a)
+					if err != nil || h != bare || p != want {
+						sc.violate("hostPortNoPort(%s://%s): dial address %q does not split into host %q port %q (%v)", scheme, host, a, bare, want, err)
+					}
+					wantNoPort := host
+					if port != "" {
+						wantNoPort = host[:len(host)-len(port)-1]
+					}
+					if b != wantNoPort {
+						sc.violate("hostPortNoPort(%s://%s): host without port is %q, expected %q", scheme, host, b, wantNoPort)
+					}
+				}
 				return hx([]byte(a)) + " " + hx([]byte(b))
 			})
 		case 7:
@@ -947,6 +997,8 @@ type replySpec struct {
 	ext         []string
 	proto       []string
 	body        int
+	noCL        bool // body without Content-Length (close-delimited)
+	http10      bool
 	extraHeader []string
 }
 
@@ -1026,10 +1078,13 @@ func runClientScenario(seed int64) *scenario {
 	case 2:
 		rs.connection = [][]string{nil, {"keep-alive"}, {"keep-alive, Upgrade"}, {"upgrades"}, {"close", "upgrade"}, {"xupgrade"}}[r.Intn(6)]
 	case 3:
-		rs.accept = g.pick("wrong", "stale", "otherkey", "missing", "trunc")
+		rs.accept = g.pick("wrong", "stale", "otherkey", "missing", "trunc", "lower", "upper", "swap", "pad", "twice")
 	case 4:
 		rs.body = []int{1, 100, 1023, 1024, 1025, 3000}[r.Intn(6)]
 		rs.status = "400 Bad Request"
+		// no Content-Length: a close-delimited body (resp.ContentLength is -1), optionally HTTP/1.0
+		rs.noCL = r.Intn(3) == 0
+		rs.http10 = rs.noCL && r.Intn(2) == 0
 	case 5:
 		rs.upgrade = []string{g.caseVar("websocket") + g.ows()}
 		rs.connection = []string{g.ows() + g.caseVar("upgrade")}
@@ -1063,7 +1118,11 @@ func runClientScenario(seed int64) *scenario {
 			}
 		}
 		var sb strings.Builder
-		sb.WriteString("HTTP/1.1 " + rs.status + "\r\n")
+		if rs.http10 {
+			sb.WriteString("HTTP/1.0 " + rs.status + "\r\n")
+		} else {
+			sb.WriteString("HTTP/1.1 " + rs.status + "\r\n")
+		}
 		for _, v := range rs.upgrade {
 			sb.WriteString("Upgrade: " + v + "\r\n")
 		}
@@ -1082,6 +1141,37 @@ func runClientScenario(seed int64) *scenario {
 		case "trunc":
 			a := acceptFor(sentKey)
 			sb.WriteString("Sec-WebSocket-Accept: " + a[:len(a)-1] + "\r\n")
+		case "lower", "upper", "swap", "pad", "twice":
+			// near misses of the right digest: base64 is case-sensitive, the value is not a token list
+			a := acceptFor(sentKey)
+			v := a
+			switch rs.accept {
+			case "lower":
+				v = strings.ToLower(a)
+			case "upper":
+				v = strings.ToUpper(a)
+			case "swap":
+				bb := []byte(a)
+				for i, c := range bb {
+					if c >= 'a' && c <= 'z' {
+						bb[i] = c - 32
+						break
+					}
+					if c >= 'A' && c <= 'Z' {
+						bb[i] = c + 32
+						break
+					}
+				}
+				v = string(bb)
+			case "pad":
+				v = a + "="
+			case "twice":
+				v = a + ", " + a
+			}
+			if v == a {
+				v = a + "x"
+			}
+			sb.WriteString("Sec-WebSocket-Accept: " + v + "\r\n")
 		}
 		for _, v := range rs.ext {
 			sb.WriteString("Sec-WebSocket-Extensions: " + v + "\r\n")
@@ -1092,7 +1182,7 @@ func runClientScenario(seed int64) *scenario {
 		for _, v := range rs.extraHeader {
 			sb.WriteString(v + "\r\n")
 		}
-		if rs.body > 0 {
+		if rs.body > 0 && !rs.noCL {
 			sb.WriteString(fmt.Sprintf("Content-Length: %d\r\n", rs.body))
 		}
 		sb.WriteString("\r\n")
@@ -1393,4 +1483,50 @@ func clientReplyOracle(sc *scenario, c *websocket.Conn, resp *http.Response, err
 	} else if err == websocket.ErrBadHandshake {
 		sc.violate("a reply that proves acceptance was refused with ErrBadHandshake")
 	}
+}
+
+// splitAuthority: host [":" port] for a well-formed authority (reg-name / IPv4 without colons, or a
+// bracketed IPv6 literal); ok=false for anything else. Returns the bare host (brackets stripped).
+func splitAuthority(a string) (bare, port string, ok bool) {
+	if a == "" {
+		return "", "", false
+	}
+	digits := func(s string) bool {
+		if s == "" {
+			return false
+		}
+		for _, c := range s {
+			if c < '0' || c > '9' {
+				return false
+			}
+		}
+		return true
+	}
+	if a[0] == '[' {
+		i := strings.IndexByte(a, ']')
+		if i < 2 || strings.ContainsAny(a[1:i], "[]") {
+			return "", "", false
+		}
+		rest := a[i+1:]
+		if rest == "" {
+			return a[1:i], "", true
+		}
+		if rest[0] == ':' && digits(rest[1:]) {
+			return a[1:i], rest[1:], true
+		}
+		return "", "", false
+	}
+	if strings.ContainsAny(a, "[]") {
+		return "", "", false
+	}
+	switch strings.Count(a, ":") {
+	case 0:
+		return a, "", true
+	case 1:
+		i := strings.IndexByte(a, ':')
+		if i > 0 && digits(a[i+1:]) {
+			return a[:i], a[i+1:], true
+		}
+	}
+	return "", "", false
 }
